@@ -196,7 +196,55 @@ def ex_callers(ctx, mags, bins):
         ctx.call(fore.get_magnitude_index, sel)
 
 
-EXECUTORS = {"bin1d_direct": ex_bin1d_direct, "cleaner_range": ex_cleaner_range, "magnitude_bins": ex_magnitude_bins,
+def ex_f32_edges(ctx, start, step, n):
+    """Edges stored in single precision (magnitudes read from a float32 table). Such an array is equally spaced only up to float32 rounding, so
+    the general contract does not judge it; judged here are the two kinds of value about which the property leaves no choice: a value equal
+    to an edge (the same number, in float32 or float64) lands in the bin that edge opens, a value in the middle of a bin lands in that bin."""
+    calc = _calc()
+    from decimal import Decimal
+    b64 = numpy.array([float(Decimal(start) + k * Decimal(step)) for k in range(n)])
+    b32 = b64.astype(numpy.float32)
+    if not numpy.all(numpy.diff(b32) > 0):
+        return
+    mids = ((b32[:-1].astype(float) + b32[1:].astype(float)) / 2.0)
+    case = {"exec": "f32_edges", "args": {"start": start, "step": step, "n": n}}
+    probes = [("edge as float32", b32.copy(), numpy.arange(n)), ("edge as float64", b32.astype(numpy.float64), numpy.arange(n)),
+              ("mid-bin", mids, numpy.arange(n - 1)), ("mid-bin as float32", mids.astype(numpy.float32), numpy.arange(n - 1))]
+    for rc in (False, True):
+        for label, pts, want in probes:
+            forms = [("array", pts)] + [("scalar", None)]
+            ok, res, tb = ctx.call(calc.bin1d_vec, pts, b32, right_continuous=rc)
+            ctx.mon("f32-edges:on-edge/mid-bin", 1)
+            ctx.count(int(pts.size))
+            if not ok:
+                ctx.violate("bin1d_vec raised on single-precision edges", case, observed=repr(res), tb=tb, tags={"clause": "f32-edges", "probe": label, "open": rc})
+                continue
+            got = numpy.asarray(res).astype(int)
+            bad = numpy.nonzero(got != want)[0]
+            if bad.size:
+                k = int(bad[0])
+                ctx.violate("value on a single-precision edge / in the middle of a bin is not placed in that bin", case,
+                            observed={"value": float(pts[k]), "bin": int(got[k]), "n_wrong": int(bad.size)}, expected={"bin": int(want[k])},
+                            tags={"clause": "f32-edges", "probe": label, "open": rc})
+            # the same values one at a time
+            for k in (0, n // 2, n - 2):
+                if 0 <= k < pts.size:
+                    ok, r1, tb = ctx.call(calc.bin1d_vec, pts[k].item(), b32, right_continuous=rc)
+                    if not ok or int(numpy.asarray(r1).ravel()[0]) != int(want[k]):
+                        ctx.violate("value on a single-precision edge / in the middle of a bin is not placed in that bin", case,
+                                    observed={"value": float(pts[k]), "bin": repr(r1)}, expected={"bin": int(want[k])},
+                                    tags={"clause": "f32-edges", "probe": label + " (scalar)", "open": rc})
+    ctx.nt(core_digest(("f32", start, step, n)))
+
+
+def ex_mw_table(ctx):
+    from csep.utils.constants import CSEP_MW_BINS
+    ref_tab = decimal_bins("2.5", "0.1", 76)
+    if numpy.shape(CSEP_MW_BINS) != ref_tab.shape or not numpy.array_equal(numpy.asarray(CSEP_MW_BINS, dtype=float), ref_tab):
+        ctx.violate("generator-not-nearest-float", {"exec": "mw_table", "args": {}}, observed="table differs", tags={"clause": "table"})
+
+
+EXECUTORS = {"mw_table": ex_mw_table, "f32_edges": ex_f32_edges, "bin1d_direct": ex_bin1d_direct, "cleaner_range": ex_cleaner_range, "magnitude_bins": ex_magnitude_bins,
              "callers": ex_callers}
 
 
@@ -325,6 +373,14 @@ def run(ctx):
     ci += 1
     if ctx.mine(ci):
         from csep.utils.constants import CSEP_MW_BINS
+        # the shipped default table is one of "the edges the library itself produces": exactly the floats closest to 2.5 + 0.1 k
+        ref_tab = decimal_bins("2.5", "0.1", 76)
+        ctx.mon("table:CSEP_MW_BINS", 1)
+        if numpy.shape(CSEP_MW_BINS) != ref_tab.shape or not numpy.array_equal(numpy.asarray(CSEP_MW_BINS, dtype=float), ref_tab):
+            got_ = numpy.asarray(CSEP_MW_BINS, dtype=float).ravel()
+            k_ = numpy.nonzero(got_[:ref_tab.size] != ref_tab[:got_.size])[0][:5] if got_.size else numpy.arange(0)
+            ctx.violate("generator-not-nearest-float", {"exec": "mw_table", "args": {}}, observed={"len": int(got_.size), "k": k_, "vals": got_[k_]},
+                        expected={"len": 76, "vals": ref_tab[k_]}, tags={"caller": "csep.utils.constants", "clause": "table"})
         drive_grid(ctx, numpy.asarray(CSEP_MW_BINS), rng, "CSEP_MW_BINS", kinds=("array", "scalar", "list"),
                    dtypes=("float64", "float32", "int64"))
         drive_grid(ctx, numpy.arange(0, 50), rng, "int-grid", dtypes=("float64", "int64"))
@@ -364,13 +420,27 @@ def run(ctx):
         ex_callers(ctx, mags, bins)
         ctx.count(int(mags.size))
         ctx.nt_bulk(core_digest(("callers", j, ctx.seed)), int(numpy.unique(mags).size))
+    # 6b. edge arrays stored in single precision
+    for st_, h_, n_ in [("5.95", "0.1", 31), ("4.95", "0.1", 41), ("2.5", "0.1", 76), ("0", "0.1", 100), ("4.975", "0.05", 40), ("-1.25", "0.25", 30),
+                        ("5.0", "0.2", 25), ("0.0", "0.5", 20), ("3.0", "0.1", 60), ("-125.4", "0.1", 40), ("165.7", "0.05", 40), ("31.5", "0.1", 101)]:
+        ci += 1
+        if ctx.mine(ci):
+            ex_f32_edges(ctx, st_, h_, n_)
+    if thorough:
+        for j in range(400):
+            ci += 1
+            if not ctx.mine(ci):
+                continue
+            r = ctx.rng("c02f32", j)
+            ex_f32_edges(ctx, str(r.choice(["4.95", "5.95", "2.5", "3.95", "5.0", "0", "-1.5", "10"])), str(r.choice(["0.1", "0.05", "0.2", "0.5", "0.25"])),
+                         int(r.integers(3, 120)))
     # 7. the repository's own tests as a workload under the contracts (thorough, one shard)
     if thorough and ctx.shard == 0:
         from ..suite import run_repo_suite
         run_repo_suite(ctx, ["test_calc.py", "test_spatial.py", "test_catalog.py", "test_regions.py", "test_forecast.py", "test_evaluations.py",
                              "test_magnitude_tests.py", "test_adaptiveHistogram.py"])
 
-META["added"] = "Added: awkward start/step pairs (first edge small against the step, non-binary steps), explicit-tol grids, spacings >= 2 (subnormals next to a 0.0 edge), generator check over awkward steps, the repository's own test-suite as a workload under the contract (thorough). generator called again after an in-place edit of its previous result. open top bin through a catalog's spatial_magnitude_counts. non-native byte order arrays."
+META["added"] = "Added: edge arrays stored in single precision (on-edge and mid-bin values only), the shipped CSEP_MW_BINS table against the decimal grid. awkward start/step pairs (first edge small against the step, non-binary steps), explicit-tol grids, spacings >= 2 (subnormals next to a 0.0 edge), generator check over awkward steps, the repository's own test-suite as a workload under the contract (thorough). generator called again after an in-place edit of its previous result. open top bin through a catalog's spatial_magnitude_counts. non-native byte order arrays."
 MANIFEST = {
     "technique": "runtime contract (post-condition) on the real bin1d_vec/cleaner_range at every call site + exact-comparison reference bin over generated edge-adjacent probes",
     "level_text": "Every call of bin1d_vec made by the workload and by the library's own call sites is checked by an exact-comparison oracle (two hard clauses + documented round-off band); ~1e7 (quick) to ~1e9 (thorough) probe values concentrated on edges +-ulps over thousands of grids, both modes, scalar/array/int/float32 inputs; edge generators compared element-wise with the exact Decimal grid. Held-on-observed, not a proof: the float domain is sampled.",
